@@ -24,7 +24,7 @@ func oneField(f FSpec) TSpec { return TSpec{K: "struct", F: []FSpec{f}} }
 
 func ptrTo(t TSpec) *TSpec { return &t }
 
-var leafSpecials = []string{"bytes", "iface", "time", "raw", "jsonnumber"}
+var leafSpecials = []string{"bytes", "iface", "time", "raw", "jsonnumber", "jm", "tm"}
 var wrapperKinds = []string{"ptr", "slice", "array", "map", "struct"}
 var structuralFeatures = []string{"reuse", "empty-struct", "embedded", "embedded-ptr", "embedded-tagged", "unexported", "dup-name"}
 var optionFeatures = []string{"omitempty", "string-opt"}
@@ -165,6 +165,50 @@ func pairCorpus() []pairCase {
 		f := plainField("F1", cloneT(inner))
 		apply(fl, &f)
 		out = append(out, pairCase{fl, "reuse", TSpec{K: "struct", F: []FSpec{f, plainField("F2", cloneT(inner))}}})
+	}
+	// every jsonschema-tag class x every kind of field type it can sit on (compiled types: three of them)
+	var tagTargets []tl
+	for _, t := range all {
+		if !strings.HasPrefix(t.name, "corpus:") || t.name == "corpus:Leaf" || t.name == "corpus:Tree" || t.name == "corpus:UsedTwice" {
+			tagTargets = append(tagTargets, t)
+		}
+	}
+	for _, st := range stClasses {
+		if st == "required" || st == "description" {
+			continue // part of fieldLevel above
+		}
+		for _, t := range tagTargets {
+			if !stApplicable(st, &t.t) {
+				continue
+			}
+			f := plainField("F1", cloneT(t.t))
+			f.ST = st
+			out = append(out, pairCase{"st:" + st, t.name, oneField(f)})
+		}
+	}
+	// siblings: two fields of one type, one of them tagged (either order) - what is written on one field
+	// must not show on the other
+	for _, st := range stClasses {
+		for _, t := range all {
+			if strings.HasPrefix(t.name, "prim:") && t.name != "prim:string" && t.name != "prim:int" && t.name != "prim:float64" && t.name != "prim:bool" && t.name != "prim:uint8" {
+				continue
+			}
+			if strings.HasPrefix(t.name, "corpus:") && t.name != "corpus:Leaf" && t.name != "corpus:Tree" {
+				continue
+			}
+			if !stApplicable(st, &t.t) || t.name == "empty-struct" {
+				continue
+			}
+			for order := 0; order < 2; order++ {
+				a, b := plainField("F1", cloneT(t.t)), plainField("F2", cloneT(t.t))
+				if order == 0 {
+					a.ST = st
+				} else {
+					b.ST = st
+				}
+				out = append(out, pairCase{"st:" + st, fmt.Sprintf("sibling%d:%s", order+1, t.name), TSpec{K: "struct", F: []FSpec{a, b}}})
+			}
+		}
 	}
 	return out
 }
